@@ -290,7 +290,6 @@ def write_job(ws, j):
     s = script_of(j["ty"])
     (d / "params.json").write_text(json.dumps({"workspace": str(ws), "tags": j["tags"], "objects": []}))
     (d / f"{s}.py").write_text("# script\n")
-    (d / f"{s}.out").write_text("out\n")
     if j["done"]:
         (d / f"{s}.done").touch()
     if j["failed"]:
@@ -517,8 +516,9 @@ def monitor_orphans(ctx, case, ws, layout, opts, before, after, exc, links=()):
             if k in refs:
                 ctx.monitor_fail("orphans:removed-referenced", f"orphans --clean removed {key} which an experiment index references", jcase)
             elif k in via_link:
+                name = next(n for ty, n, target in links if (ty, target) == k and (ty, n) in refs)
                 ctx.monitor_fail("orphans:removed-referenced-through-link",
-                                 f"orphans --clean removed the directory {key}; an experiment index references it through the link jobs/{[l for l in links if l[2] == k[1]][0][0]}/{[l for l in links if l[2] == k[1]][0][1]}", jcase)
+                                 f"orphans --clean removed the directory {key}; an experiment index references it through the link jobs/{k[0]}/{name}", jcase)
         elif exc is None and opts["clean"] and k not in refs and k not in via_link:
             ctx.monitor_fail("orphans:kept-orphan", f"orphans --clean kept {key} which no index references", jcase)
     if exc is not None:
@@ -537,11 +537,20 @@ def monitor_orphans(ctx, case, ws, layout, opts, before, after, exc, links=()):
 # ---------------------------------------------------------------- quirk probes (witnesses of F14 / F17 / F21)
 
 
+def _tmp(ctx):
+    """scratch root of this run, on tmpfs when there is one (thousands of small workspaces are created and
+    removed); `ctx.cleanup()` removes it"""
+    if ctx._tmp is None and os.access("/dev/shm", os.W_OK):
+        import tempfile
+        ctx._tmp = Path(tempfile.mkdtemp(prefix=f"xv-{PROP}-", dir="/dev/shm"))
+    return ctx.tmpdir()
+
+
 def probe_quirks(ctx):
     """which variant of the four known defects does the source show?  Observed with each finding's own
     witness; anything else than the pinned behaviour counts as repaired (and is then held to the theorems)."""
     q = {}
-    root = ctx.tmpdir() / f"probe-{len(list(ctx.tmpdir().glob('probe-*')))}"
+    root = _tmp(ctx) / f"probe-{time.time_ns()}"
     lay = {"jobs": [{"ty": "a.t", "id": "m", "done": True, "failed": False, "pid": False, "alive": False, "tags": {"model": "bm25"}},
                     {"ty": "c.t", "id": "o", "done": True, "failed": False, "pid": False, "alive": False, "tags": {}},
                     {"ty": "a.t", "id": "r", "done": False, "failed": True, "pid": True, "alive": True, "tags": {}}],
@@ -779,7 +788,7 @@ def _canon(o):
 
 
 def run_cases(ctx, cases, q, with_model=True):
-    root = ctx.tmpdir() / f"run-{time.time_ns()}"
+    root = _tmp(ctx) / f"run-{time.time_ns()}"
     root.mkdir(parents=True)
     lines, impls = [], []
     for c in cases:
@@ -830,7 +839,7 @@ def correspond(ctx):
     ctx.extra_cov["source_variant_observed"] = {k: ("pinned-defect" if v else "repaired") for k, v in q.items()}
     ctx.notes.append(f"model switches observed on the source: {q}")
     ctx._q = q
-    n = ctx.scale(1500, 24000)
+    n = ctx.scale(3000, 36000)
     rng = ctx.rng
     cases = gen_cases(ctx, n, rng)
     for k in range(0, len(cases), 4000):
